@@ -159,6 +159,78 @@ def check_pair_comp(chk, prog):
     return 1
 
 
+def check_pair_casts(chk, prog, fns):
+    """T1 (typestate of a generic object variable): wherever a function reads `->key` / `->value` through a cast of a generic
+    object local or parameter to the pair type, that variable is known to hold a pair - a class test of it (its class pointer
+    compared with the pair class) holds on every path to the read and the variable has not been assigned since.  `key =
+    PAIR(key)->key; value = PAIR(key)->value;` reads the second field from what is no longer the pair."""
+    from .. import flow, nullness
+    n = 0
+    for f in fns:
+        if f.body is None or f.cfg is None:
+            continue
+        generic = {p["d"] for p in f.params if p.get("tp") and not re.search(r"objpair", (p.get("t") or "") + (p.get("tc") or ""))}
+        generic |= {d for d, v in f.vardecls.items() if v.get("tp") and not re.search(r"objpair", (v.get("t") or "") + (v.get("tc") or ""))}
+        reads = []
+        for x in walk(f.body):
+            if x.get("k") == "member" and x.get("arrow") and x.get("n") in ("key", "value") and "objpair" in (x.get("rec") or ""):
+                b = X.strip(x["ch"][0])
+                if b is not None and b.get("k") == "ref" and b.get("d") in generic:
+                    reads.append((x, b["d"]))
+        if not reads:
+            continue
+
+        def pair_tests(cond, truth):
+            c = X.strip(cond)
+            if c is None:
+                return set()
+            if c.get("k") == "un" and c.get("op") == "!":
+                return pair_tests(c["ch"][0], not truth)
+            if c.get("k") == "bin" and c.get("op") == "&&":
+                return (pair_tests(c["ch"][0], True) | pair_tests(c["ch"][1], True)) if truth else set()
+            if c.get("k") == "bin" and c.get("op") == "||":
+                return set() if truth else (pair_tests(c["ch"][0], False) | pair_tests(c["ch"][1], False))
+            if c.get("k") == "bin" and c.get("op") in ("==", "!=") and ((c["op"] == "==") == truth):
+                for a_, b_ in ((c["ch"][0], c["ch"][1]), (c["ch"][1], c["ch"][0])):
+                    sa = X.strip(a_)
+                    if sa is not None and sa.get("k") == "member" and sa.get("n") == "cls" and \
+                            any(y.get("k") == "ref" and "objpair" in (y.get("n") or "") for y in walk(b_)):
+                        t = X.strip(sa["ch"][0])
+                        if t is not None and t.get("k") == "ref":
+                            return {t["d"]}
+            return set()
+
+        def transfer(st, x, blk):
+            if x.get("k") == "assign":
+                l = X.strip(x["ch"][0])
+                if l is not None and l.get("k") == "ref" and l.get("d") in st:
+                    return st - {l["d"]}
+            return st
+
+        def refine(st, cond, truth, blk):
+            if isinstance(truth, tuple):
+                return st
+            return st | frozenset(pair_tests(cond, truth))
+        seen = {}
+
+        def visit(st, x, blk):
+            for r_, d_ in reads:
+                if x is r_:
+                    seen[r_["i"]] = d_ in st
+        cfg = nullness.prepared_cfg(f, NORETURN)
+        flow.forward(cfg, frozenset(), transfer, refine=refine, visit=visit)
+        for r_, d_ in reads:
+            if r_["i"] not in seen:
+                continue
+            n += 1
+            chk.ob("T1", f.name, "pair-field-of-a-pair:" + canon(f, r_)[:36], seen[r_["i"]], loc=f.loc(r_),
+                   detail="%s reads `%s` where %s is not known to hold a pair any more (no class test of it holds since its last "
+                          "assignment): a field of whatever object it holds now is read as the pair's %s" % (
+                              f.name, X.render(r_)[:40], X.render(X.strip(r_["ch"][0]))[:20], r_.get("n")),
+                   proof="a pair-class test of the variable holds on every path to the read")
+    return n
+
+
 def run(tier="quick"):
     chk = Check("C03", level="other", tier=tier,
                 explanation="ownership rule for set() over resolved callees, equality-selected removal, result protocol of set(), "
@@ -168,7 +240,7 @@ def run(tier="quick"):
                      ("M3", "set reports replace/insert exactly"), ("L6", "lookup and insertion agree on ascending key order"),
                      ("L2", "unlink updates pred/succ/head/tail independently"), ("L5", "len follows removal"), ("L3", "created node linked forwards and backwards (the sorted insert set() delegates to)"), ("L7", "every node of a doubly linked copy is back-linked"),
                      ("D1", "chain pointers dereferenced only inside the chain"),
-                     ("B1", "array storage bounds and len/items invariant"), ("K1", "pair comparison accepts pair or bare key"),
+                     ("B1", "array storage bounds and len/items invariant"), ("K1", "pair comparison accepts pair or bare key"), ("T1", "a generic object is read as a pair only where it is known to be one"),
                      ("U1", "no uninitialised local")):
         chk.rule(rid, txt)
     prog = facts.extract(units=UNITS + ["obj.c", "objpair.c"])
@@ -191,6 +263,7 @@ def run(tier="quick"):
     chk.count("bisection_functions", nqf, floor=1)
     nund += nundq
     check_pair_comp(chk, prog)
+    chk.count("pair_field_reads", check_pair_casts(chk, prog, fns), floor=4)
     C02.init_diag(chk, prog, UNITS, only=names)
     chk.count("map_functions", len(fns), floor=27)
     chk.count("set_functions", ncp, floor=3)
